@@ -14,7 +14,8 @@ Two detectors:
   * oracle (independent of the model): NumPy float64 closed forms of the log density / mass (exact change
     of variables: no epsilon, no clamp), analytic entropies, mode = maximiser, normalisation (sum over
     all discrete actions, numerical integration of exp(log_prob) in 1-D), samples in the support,
-    log_prob_from_params == log_prob(returned sample); thorough tier: fixed-seed goodness of fit.
+    log_prob_from_params == log_prob(returned sample); fixed-seed goodness of fit (KS / chi-square at
+    significance 1e-6 on 50 000 draws; 24 cases in the quick tier, 240 in the thorough tier).
 """
 from __future__ import annotations
 
@@ -34,7 +35,8 @@ RULE = (
     "uniform / peaked +-40 / ties / equal), multicat (1-4 blocks of 1-5), bern (1-6 logits incl. 0 and +-40), gsde "
     "(latent 1-5 x action 1-4, full_std x use_expln x squash, log-std entries in [-20,2], latent incl. 0, one shared "
     "or per-row exploration matrices), bijector (TanhBijector on +-1, +-(1-eps/2), random), sumdims (rank 1/2 "
-    "integer-valued tensors). Every float is a float32 value. non-trivial = batch >= 2 and dim >= 2 (continuous), "
+    "integer-valued tensors), gof (50 000 seeded draws of one parameter setting per distribution: KS per dimension / "
+    "chi-square over the joint support, significance 1e-6). Every float is a float32 value. non-trivial = batch >= 2 and dim >= 2 (continuous), "
     "a peaked or tied row (discrete), >= 2 blocks (multicat), squashed action beyond 0.999, or gsde with latent >= 2; "
     "distinct = distinct canonical case"
 )
@@ -284,8 +286,11 @@ def gen_sumdims(rng):
     return {"kind": "sumdims", "tensor": t}
 
 
-def gen_gof(rng):
-    k = rng.choice(["diag", "squashed", "cat", "multicat", "bern", "gsde"])
+GOF_DISTS = ["gsde", "squashed", "diag", "cat", "multicat", "bern"]
+
+
+def gen_gof(rng, k=None):
+    k = k or rng.choice(GOF_DISTS)
     if k == "diag" or k == "squashed":
         D = rng.randint(1, 3)
         return {"kind": "gof", "dist": k, "mean": [f32((rng.random() - 0.5) * 3) for _ in range(D)],
@@ -308,9 +313,9 @@ def gen_gof(rng):
             "mean": [f32((rng.random() - 0.5) * 2) for _ in range(n)], "tseed": rng.randint(0, 2**31 - 1)}
 
 
-GENS = [("diag", gen_diag, 160, 1600), ("squashed", lambda r: gen_diag(r, True), 200, 2000), ("cat", gen_cat, 120, 1200),
-        ("multicat", gen_multicat, 100, 1000), ("bern", gen_bern, 100, 1000), ("gsde", gen_gsde, 200, 2000),
-        ("bijector", gen_bijector, 24, 160), ("sumdims", gen_sumdims, 32, 200)]
+GENS = [("diag", gen_diag, 320, 3200), ("squashed", lambda r: gen_diag(r, True), 400, 4000), ("cat", gen_cat, 240, 2400),
+        ("multicat", gen_multicat, 200, 2000), ("bern", gen_bern, 200, 2000), ("gsde", gen_gsde, 400, 4000),
+        ("bijector", gen_bijector, 40, 300), ("sumdims", gen_sumdims, 48, 300)]
 
 
 def gen_cases(ctx):
@@ -318,9 +323,10 @@ def gen_cases(ctx):
     for _, g, q, t in GENS:
         for _ in range(ctx.budget(q, t)):
             cases.append(g(ctx.rng))
-    if ctx.thorough:
-        for _ in range(ctx.budget(0, 36)):
-            cases.append(gen_gof(ctx.rng))
+    # fixed-seed goodness of fit (50 000 draws each; deterministic given the case): a few in the quick tier too,
+    # because the scale of the sampler's noise is not observable in any single deterministic comparison
+    for i in range(ctx.budget(24, 240)):
+        cases.append(gen_gof(ctx.rng, GOF_DISTS[i % len(GOF_DISTS)]))
     return cases
 
 
